@@ -42,3 +42,42 @@
         assert!(crate::get_dist_state(len) == want);
         assert!(crate::coder_get_dict_size(len as usize) == want as usize);
     }
+
+    // ---------------------------------------------------------------- symbol grammar mirror over the bit channel
+    /// C01.sym.len: LengthEncoder::encode -> LengthCoder::decode over the bit channel, for every length 2..=273 and the
+    /// given pos_state: the decoder returns the length, reads exactly the slots the encoder wrote, in the same order,
+    /// and consumes every event.
+    fn sym_len_mirror(pos_state: u32) {
+        let len: u32 = vk::any();
+        vk::assume(len >= 2 && len <= 273);
+        sym_len_mirror_len(pos_state, len);
+        crate::vcover!(len == 273);
+        crate::vcover!(len == 9);
+    }
+    fn sym_len_mirror_len(pos_state: u32, len: u32) {
+        let mut e = LengthEncoder::new(4, 273);
+        e.coder = vk::TAGGED_LEN_1000;
+        let mut d = vk::TAGGED_LEN_1000;
+        vk::ch_reset();
+        let mut rce = RangeEncoder::new(vk::Sink::<4>::new());
+        assert!(e.encode(len, pos_state, &mut rce).is_ok());
+        let mut rcd = crate::range_dec::verif_kani::mk_decoder(vk::Src::<1>::new([0], 0), 0, 0);
+        let got = crate::decoder::verif_kani::len_decode(&mut d, pos_state as usize, &mut rcd);
+        assert!(got as u32 == len);
+        assert!(vk::ch_drained());
+    }
+    #[kani::proof]
+    #[kani::unwind(18)]
+    //@ERR
+    //@BITCHAN
+    fn c01_sym_len_ps0() { sym_len_mirror(0); }
+    #[kani::proof]
+    #[kani::unwind(18)]
+    //@ERR
+    //@BITCHAN
+    fn c01_sym_len_ps5() { sym_len_mirror(5); }
+    #[kani::proof]
+    #[kani::unwind(18)]
+    //@ERR
+    //@BITCHAN
+    fn c01_sym_len_ps15() { sym_len_mirror(15); }
